@@ -6,6 +6,7 @@ import ast
 
 from vpbt import ast_checks as A, gen_programs as gp, pyexec as X
 from vpbt import prog_check as P
+from vpbt.core import lib_frame
 
 PID = "C07"
 RULE = (
@@ -94,7 +95,77 @@ def check_corpus_function(label, src):
     return "ok", None, ""
 
 
+# --------------------------------------------------------------------------
+# one regenerating transformer object for a sequence of functions (state carried between calls)
+
+
+def check_sequence(srcs, depth=6, max_runs=24):
+    """Every function of the sequence goes source -> graph -> restructure -> Python through ONE SCFG2ASTTransformer
+    object, twice from the same graph; each regenerated function must compile and behave like its original, or the
+    call must refuse explicitly - whatever the object did before (including refused calls).  -> (status, sig, msg, n)"""
+    from numba_scfg.core.datastructures.ast_transforms import AST2SCFG, SCFG2ASTTransformer
+
+    from vpbt.core import library_raised
+
+    shared = SCFG2ASTTransformer()
+    done = 0
+    for i, src in enumerate(srcs):
+        try:
+            scfg = AST2SCFG(src)
+            scfg.restructure()
+        except Exception as e:
+            if not library_raised(e):
+                raise
+            continue  # judged by the main leg
+        for attempt in ("first", "second"):
+            try:
+                new_src = ast.unparse(ast.fix_missing_locations(shared.transform(original=ast.parse(src).body[0], scfg=scfg)))
+            except NotImplementedError:
+                break  # explicit refusal is allowed; the object stays in use
+            except Exception as e:
+                if not library_raised(e):
+                    raise
+                return "fail", f"C07:seq:internal:{type(e).__name__}@{lib_frame(e)}", f"function #{i} ({attempt} generation) on a transformer object that already handled {done} function(s): {type(e).__name__}: {e}", done
+            try:
+                compile(new_src, "<regenerated>", "exec")
+            except SyntaxError as e:
+                return "fail", "C07:seq:syntax", f"function #{i} ({attempt} generation from the same graph) on a reused transformer object: regenerated source does not compile: {e}", done
+            stats, mm = A.compare_behaviour(X.factory_from_source(src, "f"), X.factory_from_source(new_src, ast.parse(new_src).body[0].name), [A.ARG_POOL[i % len(A.ARG_POOL)]], depth, max_runs)
+            if mm:
+                if A.pruned_local_symptom(src, new_src, mm):
+                    return "fail", "C07:mismatch:pruned_local", f"behaviour differs: {mm}", done  # the recorded finding KF-dead-store-scope
+                return "fail", "C07:seq:mismatch", f"function #{i} ({attempt} generation) regenerated by a transformer object that already handled {done} function(s) behaves differently: {mm}", done
+        done += 1
+    return "ok", None, "", done
+
+
+def _run_seq(spec):
+    from hypothesis import HealthCheck, Phase, given, seed as hseed, settings, strategies as st
+
+    from vpbt.core import Collector, h64
+
+    _, seed, shard, examples = spec
+    col = Collector()
+    off = {k: False for k in P.recorded_features(PID)}
+
+    @hseed(h64(("c07seq", seed, shard)))
+    @settings(max_examples=examples, database=None, deadline=None, phases=[Phase.generate], suppress_health_check=list(HealthCheck))
+    @given(srcs=st.lists(gp.programs(off, max_depth=3), min_size=2, max_size=4))
+    def t(srcs):
+        status, sig, msg, n = check_sequence(srcs)
+        col.count("sequence_" + status)
+        col.count("sequence_functions", n)
+        if status == "fail":
+            col.fail(sig, msg, dict(sequence=list(srcs)), sum(len(x) for x in srcs))
+        col.case(("seq", tuple(srcs)), sum(len(x) for x in srcs), n >= 2, sample=dict(sequence=list(srcs), status=status), classes=["sequence"])
+
+    t()
+    return col.result()
+
+
 def run(spec):
+    if spec[0] == "seq":
+        return _run_seq(spec)
     if spec[0] != "corpus":
         return _run(spec)
     from vpbt import bytecode_model as bm
@@ -123,12 +194,17 @@ def plan(tier, seed):
     specs = _plan(tier, seed, fuzz_mod=__name__)
     if tier == "quick":
         specs += [("corpus", s, 16, 40) for s in range(16)]
+        specs += [("seq", seed, s, 25) for s in range(8)]
     else:
         specs += [("corpus", s, 16, 10**9) for s in range(16)]
+        specs += [("seq", seed, s, 400) for s in range(16)]
     return specs
 
 
 def replay(inp):
+    if "sequence" in inp:
+        status, sig, msg, _ = check_sequence(inp["sequence"])
+        return [(sig, msg)] if status == "fail" else []
     if "corpus_function" in inp:
         status, sig, msg = check_corpus_function(inp["corpus_function"], inp["src"])
         return [(sig, msg)] if status == "fail" else []
@@ -136,6 +212,17 @@ def replay(inp):
 
 
 def shrink(fail):
+    if "sequence" in fail["replay"]:
+        seq = list(fail["replay"]["sequence"])
+        changed = True
+        while changed and len(seq) > 1:
+            changed = False
+            for i in range(len(seq)):
+                cand = seq[:i] + seq[i + 1 :]
+                if cand and check_sequence(cand)[1] == fail["sig"]:
+                    seq, changed = cand, True
+                    break
+        return dict(fail, replay=dict(sequence=seq))
     if "corpus_function" in fail["replay"]:
         return fail
     return _shrink(fail)
